@@ -125,6 +125,17 @@ def run_check(ctx, args):
     if hits:
         proof_problems += [f"forbidden token: {h}" for h in hits]
 
+    # 2b. escalation: functions of the property's anchored files that differ from the pinned fingerprints (the code the
+    # model was last validated against) make this run use the thorough sizes under a bounded time budget. Never a verdict.
+    try:
+        ch = core.changed_functions(ctx.repo)
+    except Exception as e:  # noqa
+        ch = [f"<fingerprints unavailable: {e}>"]
+    files = core.anchor_files(prop) + ["nutree/common.py"]
+    ctx.changed = [c for c in ch if c.split("::")[0] in files or c.startswith("<")]
+    if ctx.changed and ctx.tier == "quick" and os.environ.get("VERIF_NO_ESCALATION") != "1":
+        ctx.escalated = True
+
     # 3. correspondence + oracle (doubles as the failing-input search)
     cov = None
     if os.environ.get("VERIF_COVERAGE"):
@@ -202,7 +213,7 @@ def run_check(ctx, args):
         disagreements_model_vs_impl=len(out.disagreements),
         oracle_failures=len(out.oracle_failures),
         known_findings_matched=sorted(known_hit),
-        notes=out.notes,
+        notes=out.notes + ([f"escalated (thorough sizes, bounded time): changed since the pinned fingerprints: {ctx.changed[:8]}"] if ctx.escalated else []),
     )
     coverage.update(out.extra)
     if ctx.tier == "thorough" and not proof_problems:
